@@ -25,6 +25,7 @@ func init() {
 }
 
 func runC30(c *eng.Ctx) {
+	defer runC30Align(c)
 	p := c.P
 	Q := "promql:"
 	stmt := func(text string) eng.Matcher {
